@@ -549,6 +549,21 @@ fn divert_script(v: u8) -> Vec<String> {
             l.push("echo mid".into());
             l.push("wait".into());
         }
+        6 | 7 => {
+            // `exit` without an operand in a trap action: the shell exits with the
+            // value `$?` had just before the action - also under errexit (6),
+            // where the action's own last status comes from a failure errexit
+            // tolerates
+            if v == 6 {
+                l.push("set -e".into());
+            }
+            l.push("trap 'echo \"exit-trap ?=$?\"' EXIT".into());
+            l.push("trap 'echo u1; rc 1 && :; exit' USR1".into());
+            // (a plain command: errexit is applicable where the action runs)
+            l.push("( kill -s USR1 $$ )".into());
+            l.push("echo NEVER".into());
+            return l;
+        }
         _ => {
             l.push("trap 'echo u1; trap - USR2' USR1".into());
             l.push("trap 'echo u2' USR2".into());
@@ -562,7 +577,7 @@ fn divert_script(v: u8) -> Vec<String> {
 
 fn gen_script(rng: &mut Rng, tier: Tier) -> Script {
     if rng.below(12) == 0 {
-        let v = rng.below(6) as u8;
+        let v = rng.below(8) as u8;
         return Script {
             lines: divert_script(v),
             trap1: true,
@@ -704,6 +719,21 @@ fn check_script(s: &Script, base: &Observed, obs: &Observed) -> Option<Viol> {
         // (3: the trap of USR2 is reset by the action of USR1 while USR2 is pending)
         let want_u2 = if v == 3 { 0 } else { 1 };
         // (0, 1: everything pending has run before the next command `echo then`)
+        if v >= 6 {
+            let want = "u1\nexit-trap ?=0\n";
+            if obs.stdout != want || obs.status != "exited:0" {
+                return Some((
+                    "divert".into(),
+                    "exit-in-action".into(),
+                    format!(
+                        "`exit` without an operand in a trap action that ran when `$?` was 0 and whose own last status is 1{}: expected stdout {want:?} status exited:0; observed stdout {:?} status {} stderr {:?}",
+                        if v == 6 { " (errexit on)" } else { "" },
+                        obs.stdout, obs.status, obs.stderr
+                    ),
+                ));
+            }
+            return None;
+        }
         if v >= 4 {
             let want = "u1\nu2\nw=1\nu1done\nmid\nend\n";
             if obs.stdout != want || obs.status != "exited:0" {
